@@ -476,7 +476,10 @@ where
         m: &AssignedBigUint<F>,
     ) -> Result<AssignedBigUint<F>, Error> {
         if n == 0 {
-            return self.assign_fixed_biguint(layouter, BigUint::one());
+            // x^0 % m = 1 % m, which is 0 when m = 1.
+            let one = self.assign_fixed_biguint(layouter, BigUint::one())?;
+            let (_, r) = self.div_rem(layouter, &one, m)?;
+            return Ok(r);
         }
 
         let mut n = n;
